@@ -15,6 +15,7 @@ def run(run):
         "expressions / conditions are arbitrary functions of the record (the theorems do not depend on csvq's evaluator); the correspondence stream uses comparison, AND/OR/NOT, IS NULL and integer arithmetic on integer / NULL / plain-string cells",
         "statements executed inside nested blocks (IF, WHILE, function bodies, PREPARE/EXECUTE) have the semantics of the same statement at the top level: the model has one level of tables (publication to the DECLARING block - ReplaceTemporaryTable - is observed by the stream, not proved)",
         "STDIN is treated like any other table (several data-changing statements per transaction, COMMIT and ROLLBACK); a lock wait time-out (error 90082) is never legitimate in these single-process runs: law stdin_second_statement_timeout (fixed finding, 1986c14)",
+        "the frame / count laws are evaluated on whatever table shape the implementation returns: an unexpected shape is reported as law table_shape_unexpected with its program, never as a crash of the harness",
         "REPLACE key equivalence: any Boolean relation in the theorems; SortValues.EquivalentTo (C07 model) in the driver",
         "known finding F41 - property-text reading 'REPLACE appends the OTHERS': proved only when the given rows have pairwise non-equivalent keys (replace_appended_keys_are_new_partial); the code appends a later given row whose key exists (replace_appended_keys_are_new_counterexample compiles on every run; the corpus witness REPLACE INTO tw (id, v) USING (id) VALUES (1,'b'),(1,'c') on tw = (1,a),(2,x) is run first for every seed and must still fail the law replace_appended_row_with_existing_key); the model describes the code as it behaves",
     ]
